@@ -286,8 +286,11 @@ impl BobState {
     }
 
     /// Consume self and get the [`SyncOutcome`] for this connection.
+    ///
+    /// If handling a message failed, the progress made in that step is lost and the outcome
+    /// recorded so far is not available anymore; an empty outcome is returned in that case.
     pub fn into_outcome(self) -> SyncOutcome {
-        self.progress.unwrap()
+        self.progress.unwrap_or_default()
     }
 }
 
